@@ -462,7 +462,10 @@ def handle (j : Json) : Json :=
     let G := F.sanitize (fun s => match (List.idxOf? s rows) with | some i => okS[i]! | none => false)
                         (fun f => match (List.idxOf? f cols) with | some i => okF[i]! | none => false)
     let out := rows.map fun s => cols.map fun f => S.readBack G.rows G.cols G.toMat "nan" s f
-    Json.mkObj [("status", "ok"), ("shape", toJson [G.rows.length, G.cols.length]), ("back", toJson out)]
+    -- the labelled data that came back, projected again by the fitted frame (labels looked up in the fitted order)
+    let again := S.transformBy G.cols G.rows (S.readBack G.rows G.cols G.toMat "nan")
+    Json.mkObj [("status", "ok"), ("shape", toJson [G.rows.length, G.cols.length]), ("back", toJson out),
+                ("mat", toJson G.toMat), ("again", toJson again), ("training", toJson (S.transformBy G.cols G.rows G.val))]
   | _ => Json.mkObj [("status", "bad-request")]
 
 partial def loop (hin hout : IO.FS.Stream) : IO Unit := do
